@@ -83,6 +83,9 @@ class Gen:
         rng = self.rng; dens = self.sd if dens is None else dens
         for p in ALL:
             if p.__name__ in self.exclude: continue
+            # documents that override the initial direction leave tts:direction to the cascade (three times in four): the value a
+            # region derives from its writing mode is then what every content element below it shows
+            if p is SP.Direction and getattr(self, "force_initial_direction", False) and rng.random() < 0.75: continue
             if p is SP.Display:
                 r = rng.random()
                 if r < self.dp:
